@@ -189,7 +189,7 @@ fn check(contigs: &[Vec<u8>], k: usize, seg: usize, rng: &mut Rng, dir: &str, re
 }
 
 pub fn run(args: &Args, rep: &mut Report) {
-    let n = args.get_u64("n", if args.tier_thorough { 40_000 } else { 1_200 });
+    let n = args.get_u64("n", if args.tier_thorough { 120_000 } else { 1_200 });
     let scratch = args.get("scratch").unwrap_or("/tmp").to_string();
     let dir = format!("{}/sp-{}-{}", scratch, std::process::id(), args.shard);
     std::fs::create_dir_all(&dir).unwrap();
